@@ -404,8 +404,9 @@ def run(tier: str, seed: int) -> int:
     tasks = []
     for v in vecs:
         for on in onames:
-            # every instance within the bound under the default options, the minimal + single-deviation ones under the others
-            b = inst_bound if on in ("default", "compound") else (1 if th else 0)
+            # every instance within the bound under the options that shape the classes, the minimal (+ single-deviation) ones under the others
+            # (unnesting changes which class an element is bound by, so it gets the full instance bound too)
+            b = inst_bound if on in ("default", "compound", "unnest", "compound+unnest") else (1 if th else 0)
             tasks.append(("c02.faithful", dict(vec=v, maxfeat=maxfeat, oname=on, free_instances=False), b, ()))
     stats = parallel(tasks, _task, chunk=2)
     for ent in _GEN.values():
